@@ -51,9 +51,9 @@ type c43Req struct {
 	lookback int64    // range
 	engine   string   // range
 	partial  bool
-	replica  []string          // range, series
-	analyze  bool              // range
-	label    string            // labels
+	replica  []string            // range, series
+	analyze  bool                // range
+	label    string              // labels
 	matchers [][]*labels.Matcher // labels, series
 }
 
@@ -116,7 +116,9 @@ func (r c43Req) canon() string {
 	}
 }
 
-func (r c43Req) String() string { return r.canon() + fmt.Sprintf(" (maxRes=%d replicaRaw=%q)", r.maxRes, r.replica) }
+func (r c43Req) String() string {
+	return r.canon() + fmt.Sprintf(" (maxRes=%d replicaRaw=%q)", r.maxRes, r.replica)
+}
 
 const c43Split = 24 * time.Hour
 
